@@ -265,6 +265,14 @@ def monitors(sm: dict) -> list:
         for t, st, mtype, body in s['tx']:
             if mtype in (wire.UPDATE, wire.ROUTE_REFRESH) and st != 'ESTABLISHED':
                 viols.append((f'wire-in-state:{mtype}:{st}', f'message type {mtype} written at t={t} while the session state was {st}'))
+        # (3b) RFC 4271 8.2.2: the first message a speaker writes on a connection is its OPEN, the Cease with which it refuses the connection, or
+        # the answer to something malformed it read there.
+        if s['tx']:
+            t0, st0, m0, b0 = s['tx'][0]
+            # (a session that reads the OPEN of the peer first - local-as auto - answers what it reads before its own OPEN: errors 1/x, 2/x, 5/1 are
+            # legitimate first messages there; a Hold Timer Expired never is: no hold time runs on a connection before the OPENs are exchanged)
+            if m0 == wire.NOTIFICATION and len(b0) >= 2 and int(b0[:2], 16) == 4:
+                viols.append((f'hold-timer-before-open:{b0[:4]}', f'the first message written on connection {s["index"]} ({s["kind"]}) at t={t0} is NOTIFICATION {b0[:4]} (Hold Timer Expired): the timer of another connection'))
         if s['tx_err'] is not None or s['tx_rest']:
             viols.append(('tx-unframed', f'bytes written on socket {s["index"]} do not frame as BGP messages: {s["tx_err"]}'))
     # (4) leaving a connected state closes the transport; nothing stays open without an owner
